@@ -19,7 +19,8 @@ import (
 //   swidth: Str Int -> Int             width of that rune (1..4; 1 for invalid bytes)
 // Trusted facts (the "UTF-8 decode spec"): 0 <= slen; 0 <= sbyte < 256; 1 <= swidth <= 4;
 // i + swidth(s,i) <= slen(s) for 0 <= i < slen(s); sbyte < 128 => srune = sbyte and swidth = 1;
-// srune in [0, 0x10FFFF]; srune = 0xFFFD when width is 1 and byte >= 128.
+// srune in [0, 0x10FFFF] and never a surrogate (the decoder yields U+FFFD for those encodings);
+// srune = 0xFFFD when width is 1 and byte >= 128.
 
 func (v *Verifier) strPrelude(c *Ctx) {
 	if v.strDeclared {
@@ -35,7 +36,7 @@ func (v *Verifier) strPrelude(c *Ctx) {
 	c.assert("(forall ((s! Str) (i! Int)) (! (and (<= 1 (swidth s! i!)) (<= (swidth s! i!) 4) (=> (and (<= 0 i!) (< i! (slen s!))) (<= (+ i! (swidth s! i!)) (slen s!)))) :pattern ((swidth s! i!))))", "rune width")
 	c.assert("(forall ((s! Str) (i! Int)) (! (=> (not (= (srune s! i!) 65533)) (= (swidth s! i!) (ite (< (srune s! i!) 128) 1 (ite (< (srune s! i!) 2048) 2 (ite (< (srune s! i!) 65536) 3 4))))) :pattern ((swidth s! i!))))", "width of a validly decoded rune")
 	c.assert("(forall ((s! Str) (i! Int)) (! (=> (= (srune s! i!) 65533) (or (= (swidth s! i!) 1) (= (swidth s! i!) 3))) :pattern ((swidth s! i!))))", "U+FFFD is either a real 3-byte rune or one invalid byte")
-	c.assert("(forall ((s! Str) (i! Int)) (! (and (<= 0 (srune s! i!)) (<= (srune s! i!) 1114111) (=> (< (sbyte s! i!) 128) (and (= (srune s! i!) (sbyte s! i!)) (= (swidth s! i!) 1))) (=> (>= (sbyte s! i!) 128) (and (>= (srune s! i!) 128) (=> (= (swidth s! i!) 1) (= (srune s! i!) 65533))))) :pattern ((srune s! i!))))", "rune decode")
+	c.assert("(forall ((s! Str) (i! Int)) (! (and (<= 0 (srune s! i!)) (<= (srune s! i!) 1114111) (not (and (<= 55296 (srune s! i!)) (<= (srune s! i!) 57343))) (=> (< (sbyte s! i!) 128) (and (= (srune s! i!) (sbyte s! i!)) (= (swidth s! i!) 1))) (=> (>= (sbyte s! i!) 128) (and (>= (srune s! i!) 128) (=> (= (swidth s! i!) 1) (= (srune s! i!) 65533))))) :pattern ((srune s! i!))))", "rune decode")
 }
 
 func (v *Verifier) strFacts(c *Ctx, s Term)     { v.strPrelude(c) }
